@@ -37,4 +37,53 @@ func factsC15() {
 		return true
 	})
 	addBool("c15WildcardRepair", found, "config.go WriteFrontendMaps calls wildcardHasCustomCrt (repair c836d74)")
+	// ---- the running side (Model/C15Run.lean): what guards the `set ssl cert` of a changed certificate
+	dyn := "pkg/haproxy/dynupdate.go"
+	var guards, calls []string
+	ast.Inspect(funcDecl(dyn, "checkHostPair"), func(n ast.Node) bool {
+		switch v := n.(type) {
+		case *ast.IfStmt:
+			c := c05Expr(v.Cond)
+			if strings.Contains(c, "TLSHash") || strings.Contains(c, "execUpdateCert") {
+				guards = append(guards, c)
+			}
+		case *ast.CallExpr:
+			if strings.HasSuffix(calleeName(v.Fun), "execUpdateCert") {
+				calls = append(calls, c05Expr(v))
+			}
+		}
+		return true
+	})
+	addStrList("c15CertPushGuard", guards, "dynupdate.go checkHostPair: the condition that guards the push of a changed certificate (same file, another hash, nothing else: no memo of what was sent)")
+	addStrList("c15CertPushCalls", calls, "dynupdate.go checkHostPair: calls of execUpdateCert (the file pushed is the file of the host)")
+	// state of one update that could remember what was sent: fields of dynUpdater
+	var fields []string
+	for _, d := range load(dyn).f.Decls {
+		gd, ok := d.(*ast.GenDecl)
+		if !ok {
+			continue
+		}
+		for _, sp := range gd.Specs {
+			ts, ok := sp.(*ast.TypeSpec)
+			if !ok || ts.Name.Name != "dynUpdater" {
+				continue
+			}
+			if st, ok := ts.Type.(*ast.StructType); ok {
+				for _, f := range st.Fields.List {
+					for _, n := range f.Names {
+						fields = append(fields, n.Name)
+					}
+				}
+			}
+		}
+	}
+	addStrList("c15UpdaterFields", fields, "dynupdate.go `type dynUpdater struct`: field names (nothing that remembers which certificate was sent)")
+	// `set ssl cert` names the FILE: the format strings of execUpdateCert
+	var fm []string
+	for _, s := range strLits(dyn, "execUpdateCert") {
+		if strings.Contains(s, "ssl cert") && strings.Contains(s, "%s") {
+			fm = append(fm, s)
+		}
+	}
+	addStrList("c15SetSSLCertFormats", fm, "dynupdate.go execUpdateCert: `set ssl cert <filename> <<payload` and `commit ssl cert <filename>`")
 }
